@@ -37,7 +37,7 @@ inductive BC
   | target (offset : Nat)           -- jump target (stored as `VCell::Ptr(offset)`)
   | datum (d : Datum)               -- immediate / pointer to quoted data
   | void
-  | newVector                       -- pointer to the (shared!) empty vector of a quasiquoted vector
+  | newVector                       -- (unused since the quasiquoted-vector fix: the code now calls `(vector)`)
   | lambda (id : Nat)               -- pointer to a code object
 deriving Repr, Inhabited
 
@@ -116,7 +116,12 @@ def findFree : Nat → Datum → List Text → List Text → Except CErr (List T
 def findFreeInProc : Nat → Datum → Datum → List Text → List Text → Except CErr (List Text)
   | 0, _, _, _, _ => .error (.unsupported "fuel")
   | fuel+1, car, cdr, env, free =>
-    if car.isSymStr ['q', 'u', 'o', 't', 'e'] || car.isSymStr ['q', 'u', 'a', 's', 'i', 'q', 'u', 'o', 't', 'e'] then .ok free else
+    if car.isSymStr ['q', 'u', 'o', 't', 'e'] then .ok free else
+    -- only the unquoted expressions of a quasiquote template are code
+    if car.isSymStr ['q', 'u', 'a', 's', 'i', 'q', 'u', 'o', 't', 'e'] then
+      (match cdr with
+       | .pair template _ => findFreeQuasi fuel template 0 env free
+       | _ => .ok free) else
     let free := match car with
       | .sym s => if !isPrimitive s && !env.contains s then insertSet s free else free
       | _ => free
@@ -154,6 +159,36 @@ def findFreeInProc : Nat → Datum → Datum → List Text → List Text → Exc
       match restEnv with
       | .error e => .error e
       | .ok (rest, env) => findFreeList fuel rest env free
+
+/-- `find_free_symbols_in_quasiquote`: walks the template as `compile_quasiquote` does; the free
+    symbols of an unquote at depth 0 are collected -/
+def findFreeQuasi : Nat → Datum → Nat → List Text → List Text → Except CErr (List Text)
+  | 0, _, _, _, _ => .error (.unsupported "fuel")
+  | fuel+1, cell, depth, env, free =>
+    match cell with
+    | .vec elems => findFreeQuasiList fuel elems depth env free
+    | .pair car cdr =>
+      let isUnq := car.isSymStr ['u', 'n', 'q', 'u', 'o', 't', 'e']
+      if isUnq && depth == 0 then
+        match cdr with
+        | .pair x _ => findFree fuel x env free
+        | _ => .ok free
+      else
+        let depth := if isUnq then depth - 1 else depth
+        let depth := if car.isSymStr ['q', 'u', 'a', 's', 'i', 'q', 'u', 'o', 't', 'e'] then depth + 1 else depth
+        findFreeQuasiList fuel cell depth env free
+    | _ => .ok free
+
+/-- the elements of a quasiquoted list (its proper part) or vector -/
+def findFreeQuasiList : Nat → Datum → Nat → List Text → List Text → Except CErr (List Text)
+  | 0, _, _, _, _ => .error (.unsupported "fuel")
+  | fuel+1, rest, depth, env, free =>
+    match rest with
+    | .pair a d =>
+      match findFreeQuasi fuel a depth env free with
+      | .ok free => findFreeQuasiList fuel d depth env free
+      | .error e => .error e
+    | _ => .ok free
 
 /-- the `while rest.is_pair()` loop and the improper tail -/
 def findFreeList : Nat → Datum → List Text → List Text → Except CErr (List Text)
@@ -439,9 +474,11 @@ def compileQuasi : Nat → CState → Ctx → Nat → Datum → Nat → CM (CSta
   | fuel+1, st, c, base, e, depth =>
     match e with
     | .vec elems =>
-      match quasiVec fuel st c (base + 3) elems depth with
+      -- every evaluation builds a fresh vector: `(vector)` called through the global binding
+      match quasiVec fuel st c (base + 6) elems depth with
       | .error err => .error err
-      | .ok (st, code) => .ok (st, [.op .movImm, .newVector, .acc] ++ code)
+      | .ok (st, code) =>
+        .ok (st, [.op .pushImm, .argc 0, .op .mov, .global ['v', 'e', 'c', 't', 'o', 'r'], .acc, .op .callAcc] ++ code)
     | .pair car _ =>
       let isUnq := car.isSymStr ['u', 'n', 'q', 'u', 'o', 't', 'e']
       if isUnq && depth == 0 then
